@@ -163,6 +163,9 @@ class FakeMsg:
     def SerializeToString(self):
         return self.blob
 
+    def SerializePartialToString(self):
+        return self.blob
+
     @staticmethod
     def FromString(buf):
         return FakeMsg(buf)
@@ -209,6 +212,42 @@ def h05c_segment(H, m1, m2, stale1, stale2, two, trailing):
     assert remainder == rest
 
 
+class FakeMsgB(FakeMsg):
+    """a second message class: type 2 in the patched ID_NAME_MAP"""
+
+    @staticmethod
+    def FromString(buf):
+        return FakeMsgB(buf)
+
+
+def h05c_patches(t0, t1, b2, b3, m):
+    """a mergeable segment: two base messages (types symbolic) followed by two patch messages (type 0), each naming its
+    base message by index - every patch is decoded with the class of ITS base message, bytes and order kept"""
+    from numbers_parser.iwafile import ProtobufPatch
+    del HEADERS[:]
+    assume(1 <= t0 <= 2 and 1 <= t1 <= 2 and 0 <= b2 <= 1 and 0 <= b3 <= 1)
+    types = [t0, t1, 0, 0]
+    infos = [FakeInfo(t, m) for t in types]
+    infos[2].base_message_index = b2
+    infos[3].base_message_index = b3
+    header = FakeHeader(5, infos)
+    header.should_merge = True
+    klass = {1: FakeMsg, 2: FakeMsgB}
+    objs = [klass[t0](opaque_bytes("msg-0", m)), klass[t1](opaque_bytes("msg-1", m)),
+            ProtobufPatch(klass[types[b2]](opaque_bytes("msg-2", m))), ProtobufPatch(klass[types[b3]](opaque_bytes("msg-3", m)))]
+    buf = IWAArchiveSegment(header, objs).to_buffer()
+    seg2, remainder = IWAArchiveSegment.from_buffer(buf)
+    assert len(remainder) == 0 and len(seg2.objects) == 4
+    assert type(seg2.objects[0]) is klass[t0] and type(seg2.objects[1]) is klass[t1]
+    for i, b in ((2, b2), (3, b3)):
+        got = seg2.objects[i]
+        assert type(got) is ProtobufPatch
+        assert type(got.data) is klass[types[b]]               # decoded as a patch of its own base message
+        assert got.data.blob == objs[i].data.blob
+    for i in (0, 1):
+        assert seg2.objects[i].blob == objs[i].blob
+
+
 STUBS = ["snappy.compress / uncompress: contract stub (active natively too): arbitrary payload of length <= 32 + n + n/6; "
          "uncompress inverts compress and fails on other payloads",
          "archive segments' to_buffer: opaque byte string of symbolic length"]
@@ -240,5 +279,15 @@ HARNESSES.append(
                    "source like repository code"],
             outside=OUT,
             patches=[(iwamod, "ArchiveInfo", FakeArchiveInfo), (iwamod, "ID_NAME_MAP", {1: FakeMsg})],
+            interpret=[_VarintBytes, _EncodeVarint, _DecodeVarint32]))
+HARNESSES.append(
+    Harness("H05c-patches", h05c_patches,
+            dict(t0=IntDom(), t1=IntDom(), b2=IntDom(), b3=IntDom(), m=IntDom(0, 300)),
+            bounds="segment with should_merge set: two base messages of symbolic type (two message classes), two patch messages "
+                   "with symbolic base indices, message size 0..300 (symbolic)",
+            stubs=["message classes = two attribute-bag classes; a patch's SerializePartialToString = its message bytes",
+                   "ArchiveInfo as in H05c"],
+            outside=OUT + ["diff_field_path / fields_to_remove patching (not implemented by the library either)"],
+            patches=[(iwamod, "ArchiveInfo", FakeArchiveInfo), (iwamod, "ID_NAME_MAP", {1: FakeMsg, 2: FakeMsgB})],
             interpret=[_VarintBytes, _EncodeVarint, _DecodeVarint32]))
 PROPERTY = "C05"
